@@ -1,5 +1,6 @@
-import Chewing.Proofs.EditorCommit
+import Chewing.Proofs.EditorCommitHistory
 import Chewing.Props.C06
+import Chewing.Props.C03
 /-!
 # C02 — What is committed is exactly what was displayed; no text is lost or invented
 
@@ -25,6 +26,15 @@ Reading.
 * *Exactly when the key result says commit*: `commit_string_iff_result` is about key events
   (`process_keyevent` resets the commit buffer first).  The API calls do not reset it; what each of them
   does to the buffer is stated separately (`api_*`).
+* *No text is lost or invented* over whole histories (section 5): every public operation is split into
+  its editing part and its commit path (`editPart`, `emitted`, `accepted`); `step_accounts` says there are
+  exactly three shapes of a step, `emitted_was_displayed` that emitted text is a leading part of the
+  display of the edited buffer (or one directly committed key), `history_ledger` that over any operation
+  list the characters of all commit strings plus the final pre-edit account for every accepted character.
+* The tiling hypothesis is needed only AT the states where a commit path runs (`TilesAt`);
+  `tilesAt_of_C03` derives it from C03's theorems with exactly C03's hypotheses (`CompValid`, `NoEmptyKey`,
+  `WellFormed`, `HasWord` for the simple engine).  That editor histories reach only `CompValid`
+  compositions is C04's invariant, not proved here.
 -/
 namespace Chewing.C02
 open Chewing Chewing.C06
@@ -71,10 +81,8 @@ theorem shared_commit_equals_display {sh sh' : Shared D L} (h : Shared.commit en
     any modifiers, any key index, any character — is ignored when the pre-edit is empty and runs
     `shared.commit()` otherwise -/
 theorem enter_arm (sh : Shared D L) {ev : KeyEvent} (hk : ev.code = KC.enter) :
-    enteringNext env sh ev = if sh.com.isEmpty then .ok (sh, .spin .ignore) else enteringEnter env sh := by
-  unfold enteringNext
-  simp [hk, KC.enter, KC.backspace, KC.unknown, KC.tab, KC.del, KC.home, KC.left, KC.right, KC.up, KC.space,
-    KC.down, KC.end_, KC.pageUp, KC.pageDown, KC.esc, isDigitCode, isIdleKey]
+    enteringNext env sh ev = if sh.com.isEmpty then .ok (sh, .spin .ignore) else enteringEnter env sh :=
+  enter_arm_aux env sh hk
 
 /-- … and no other key commits a non-empty pre-edit as a whole: if a key reports *commit* from the
     state machine itself (not through the overflow path) while the pre-edit is non-empty, it is Enter
@@ -195,16 +203,16 @@ theorem auto_commit_prefix_of_display {sh sh' : Shared D L} (h : Shared.tryAutoC
   rw [hc, hb]
   simp only [Outcome.map, textOf, ← List.flatMap_append, List.take_append_drop]
 
-/-- under the tiling hypothesis on the engine: **characters committed + characters remaining = characters
-    before** (the buffer including what was just typed), the committed text is non-empty, and
-    (`bounded_after_autocommit`) the remaining buffer fits the threshold -/
-theorem auto_commit_conserves (hT : ConvTiles env) {sh sh' : Shared D L}
+/-- under the tiling hypothesis AT THE OVERFLOWING STATE (what C03 proves for a valid composition and a
+    well-formed dictionary, `tilesAt_of_C03`): **characters committed + characters remaining = characters
+    before** (the buffer including what was just typed), the committed text is non-empty, and the
+    remaining buffer fits the threshold -/
+theorem auto_commit_conserves_at {sh sh' : Shared D L} (hT : TilesAt env sh)
     (h : Shared.tryAutoCommit env sh = .ok sh') (hlen : sh.options.autoCommitThreshold < sh.com.len) :
     sh'.commitBuf.length + sh'.com.len = sh.com.len ∧ sh'.commitBuf ≠ [] ∧
     sh'.com.len ≤ sh.options.autoCommitThreshold := by
   obtain ⟨ivs, k, hc, hk, hpos, hb, hle, hsym, _, _, hfin, _⟩ := auto_commit_prefix env h hlen
-  obtain ⟨paths, hp, hmem⟩ := conversion_mem env hc
-  have ht : Tiles 0 sh.com.len ivs := hT _ _ _ _ hp _ hmem
+  have ht : Tiles 0 sh.com.len ivs := hT.conversion env hc
   obtain ⟨t1, t2⟩ := ht.take k
   have hrem : sh'.com.len = sh.com.len - sumLen (ivs.take k) := by
     rw [len_eq, show sh'.com.inner.symbols = sh'.com.symbols from rfl, hsym, List.length_drop]; rfl
@@ -219,6 +227,13 @@ theorem auto_commit_conserves (hT : ConvTiles env) {sh sh' : Shared D L}
     have := ht.total.1
     omega
   · exact hfin
+
+/-- the same for an engine that tiles every composition -/
+theorem auto_commit_conserves (hT : ConvTiles env) {sh sh' : Shared D L}
+    (h : Shared.tryAutoCommit env sh = .ok sh') (hlen : sh.options.autoCommitThreshold < sh.com.len) :
+    sh'.commitBuf.length + sh'.com.len = sh.com.len ∧ sh'.commitBuf ≠ [] ∧
+    sh'.com.len ≤ sh.options.autoCommitThreshold :=
+  auto_commit_conserves_at env (hT.tilesAt env sh) h hlen
 
 /-- **bounded_after_autocommit**: whatever the length was, after `try_auto_commit` the buffer fits the
     threshold (with a tiling engine) -/
@@ -257,90 +272,8 @@ theorem dispatch_shape {e : Editor D L} {ev : KeyEvent} {sh : Shared D L} {st : 
     (sh.last ≠ .commit ∧ sh.commitBuf = []) ∨
     (sh.last = .commit ∧ e.state = .entering ∧ st = .entering ∧
       ((e.shared.com.isEmpty = true ∧ sh.com = e.shared.com ∧ ∃ ch, sh.commitBuf = [ch]) ∨
-       (ev.code = KC.enter ∧ e.shared.com.isEmpty = false ∧ Shared.commit env (preamble e.shared) = .ok sh))) := by
-  have hpb : (preamble e.shared).commitBuf = [] := rfl
-  unfold dispatch at h
-  split at h
-  · -- Entering
-    rename_i hs
-    cases hr : enteringNext env (preamble e.shared) ev with
-    | ok x =>
-      obtain ⟨sh', t⟩ := x
-      rw [hr] at h; simp only [Outcome.map] at h
-      rcases cshape_enteringNext env (preamble e.shared) ev sh' t hr with ⟨hn, hb⟩ | ⟨ht, hcase⟩
-      · left
-        cases t with
-        | toState s' => simp only [applyTrans] at h; cases h; exact ⟨by simp, by rw [← hpb]; exact hb⟩
-        | spin b =>
-          simp only [applyTrans] at h; cases h
-          exact ⟨fun c => hn (by simp only at c; rw [c]), by rw [← hpb]; exact hb⟩
-      · right
-        subst ht
-        simp only [applyTrans] at h; cases h
-        refine ⟨rfl, hs, rfl, ?_⟩
-        rcases hcase with ⟨he, hcom, ch, hch⟩ | ⟨hk, hcm⟩
-        · left
-          refine ⟨he, hcom, ch, ?_⟩
-          rcases hch with hch | hch
-          · exact hch
-          · rw [hch, hpb]; rfl
-        · right
-          have hne : e.shared.com.isEmpty = false := by
-            cases he : e.shared.com.isEmpty with
-            | false => rfl
-            | true =>
-              rw [enter_arm env _ hk] at hr
-              have : (preamble e.shared).com.isEmpty = true := he
-              rw [this] at hr; simp at hr
-          refine ⟨hk, hne, ?_⟩
-          obtain ⟨ivs, s1, _, _, hsh⟩ := commit_spec env hcm
-          rw [hcm, hsh]
-    | panic p => rw [hr] at h; simp [Outcome.map] at h
-    | outOfFuel => rw [hr] at h; simp [Outcome.map] at h
-  · -- EnteringSyllable
-    cases hr : enteringSyllableNext env (preamble e.shared) ev with
-    | ok x =>
-      obtain ⟨sh', t⟩ := x
-      rw [hr] at h; simp only [Outcome.map] at h
-      obtain ⟨hn, hb⟩ := nocommit_enteringSyllableNext env (preamble e.shared) ev sh' t hr
-      left
-      cases t with
-      | toState s' => simp only [applyTrans] at h; cases h; exact ⟨by simp, hb⟩
-      | spin b =>
-        simp only [applyTrans] at h; cases h
-        exact ⟨fun c => hn (by simp only at c; rw [c]), hb⟩
-    | panic p => rw [hr] at h; simp [Outcome.map] at h
-    | outOfFuel => rw [hr] at h; simp [Outcome.map] at h
-  · -- Selecting
-    rename_i s hs
-    cases hr : selectingNext env s (preamble e.shared) ev with
-    | ok x =>
-      rw [hr] at h; simp only [Outcome.map] at h
-      obtain ⟨hn, hb⟩ := nocommitSel_selectingNext env s (preamble e.shared) ev x hr
-      left
-      cases ht : x.trans with
-      | toState s' => rw [ht] at h; simp only [applyTrans] at h; cases h; exact ⟨by simp, hb⟩
-      | spin b =>
-        rw [ht] at h; simp only [applyTrans] at h; cases h
-        exact ⟨fun c => hn (by simp only at c; rw [ht, c]), hb⟩
-    | panic p => rw [hr] at h; simp [Outcome.map] at h
-    | outOfFuel => rw [hr] at h; simp [Outcome.map] at h
-  · -- Highlighting
-    rename_i m hs
-    cases hr : highlightingNext env m (preamble e.shared) ev with
-    | ok x =>
-      obtain ⟨sh', m', t⟩ := x
-      rw [hr] at h; simp only [Outcome.map] at h
-      have hf := (highlighting_nocommit env m (preamble e.shared) ev).elim hr
-      simp only at hf
-      left
-      cases t with
-      | toState s' => simp only [applyTrans] at h; cases h; exact ⟨by simp, hf.2⟩
-      | spin b =>
-        simp only [applyTrans] at h; cases h
-        exact ⟨fun c => hf.1 (by simp only at c; rw [c]), hf.2⟩
-    | panic p => rw [hr] at h; simp [Outcome.map] at h
-    | outOfFuel => rw [hr] at h; simp [Outcome.map] at h
+       (ev.code = KC.enter ∧ e.shared.com.isEmpty = false ∧ Shared.commit env (preamble e.shared) = .ok sh))) :=
+  dispatch_shape_aux env h
 
 /-- **every key step, classified by how it commits.**  (N) not *commit*, commit buffer empty;
     (S) *commit* of one character, pre-edit empty before and after; (W) *commit* of the whole pre-edit by
@@ -575,6 +508,161 @@ theorem api_jump {e e' : Editor D L} {w : Nat} {r : Bool} (h : e.jump env w = .o
 theorem api_ack_clear (e : Editor D L) : e.ack.shared.commitBuf = [] ∧ (e.clear env).shared.commitBuf = [] :=
   ⟨rfl, rfl⟩
 
+/-! ## 5. every operation and whole histories: nothing lost, nothing invented
+
+`editPart env e op` is the shared state after the *editing part* of an operation (state machine / API
+call) and before its commit path; `emitted e op e'` is the text the application receives from the
+operation; `accepted e op m` the net number of characters the editing part took in.  Definitions in
+`Proofs/EditorCommitHistory.lean`. -/
+
+/-- **every operation** (key, `select(n)`, `commit()`, every other public call), for every environment:
+    its editing part returns, and the operation has one of three shapes — (K) nothing emitted, the
+    pre-edit is what the editing part left; (S) one character passed straight through an empty
+    pre-edit; (C) a commit path ran: the emitted text is the text of the first `k ≥ 1` intervals of the
+    conversion of the edited buffer — all of them and the pre-edit is empty afterwards (Enter,
+    `commit()`), or the buffer exceeded the threshold and exactly the symbols under the least
+    sufficient leading part were removed from the front (overflow after a key or after `select(n)`).
+    There is no fourth way: no operation removes symbols through a commit path without emitting them,
+    and none emits text that is not a leading part of what was displayed. -/
+theorem step_accounts {e e' : Editor D L} {op : Op L} (ha : e.apply env op = .ok e') :
+    ∃ m, editPart env e op = .ok m ∧ StepShape env e op m e' := by
+  obtain ⟨m, hm⟩ := editPart_ok env ha
+  exact ⟨m, hm, step_shape env ha hm⟩
+
+/-- **nothing invented**: what an operation emits is empty, or one directly committed character (empty
+    pre-edit), or a leading part of the pre-edit string `display` shows for the edited buffer -/
+theorem emitted_was_displayed {e e' : Editor D L} {op : Op L} {m : Shared D L}
+    (ha : e.apply env op = .ok e') (hm : editPart env e op = .ok m) :
+    emitted e op e' = [] ∨ (direct e op m = true ∧ ∃ ch, emitted e op e' = [ch]) ∨
+    ∃ rest, Shared.display env m = .ok (emitted e op e' ++ rest) := by
+  rcases step_shape env ha hm with ⟨_, h, _⟩ | ⟨hd, _, h⟩ | ⟨_, ivs, k, hc, _, _, hem, _⟩
+  · exact Or.inl h
+  · exact Or.inr (Or.inl ⟨hd, h⟩)
+  · refine Or.inr (Or.inr ⟨textOf (ivs.drop k), ?_⟩)
+    unfold Shared.display
+    rw [hc, hem]
+    simp only [Outcome.map, textOf, ← List.flatMap_append, List.take_append_drop]
+
+/-- **nothing lost, nothing duplicated** (one operation): with a tiling engine at the edited state,
+    characters emitted + symbols remaining = symbols before + characters accepted by the editing part -/
+theorem step_ledger {e e' : Editor D L} {op : Op L} {m : Shared D L}
+    (ha : e.apply env op = .ok e') (hm : editPart env e op = .ok m) (hT : TilesAt env m) :
+    ((emitted e op e').length : Int) + e'.shared.com.len = e.shared.com.len + accepted e op m :=
+  shape_ledger env hT (step_shape env ha hm)
+
+/-- … and after a commit path the remaining symbols are exactly those behind the emitted characters -/
+theorem step_remaining {e e' : Editor D L} {op : Op L} {m : Shared D L}
+    (ha : e.apply env op = .ok e') (hm : editPart env e op = .ok m) (hT : TilesAt env m)
+    (hne : emitted e op e' ≠ []) (hd : direct e op m = false) :
+    e'.shared.com.symbols = m.com.symbols.drop (emitted e op e').length := by
+  rcases step_shape env ha hm with ⟨_, h, _⟩ | ⟨hd', _⟩ | ⟨_, ivs, k, hc, _, _, hem, hcase⟩
+  · exact absurd h hne
+  · rw [hd] at hd'; cases hd'
+  · have ht := hT.conversion env hc
+    rw [hem]
+    rcases hcase with ⟨hk, hsym, _⟩ | ⟨_, _, hsym, _⟩
+    · obtain ⟨t1, t2⟩ := ht.total
+      rw [hk, List.take_length, t2, hsym, List.drop_eq_nil_of_le]
+      rw [show m.com.symbols.length = m.com.len from rfl]; omega
+    · rw [(ht.take k).1]; exact hsym
+
+/-- the log of a history is a log of `run`: same final state, one entry per operation … -/
+theorem runLog_run {e e' : Editor D L} {ops : List (Op L)} {outs : List Text} {acc : Int}
+    (h : e.runLog env ops = .ok (e', outs, acc)) : e.run env ops = .ok e' ∧ outs.length = ops.length := by
+  induction ops generalizing e outs acc with
+  | nil => injection h with h; injection h with h1 h2; injection h2 with h2 h3; subst h1 h2; exact ⟨rfl, rfl⟩
+  | cons op ops ih =>
+    unfold Editor.runLog at h
+    split at h
+    · rename_i e1 m ha hm
+      split at h
+      · rename_i e2 outs2 acc2 hr
+        injection h with h; injection h with h1 h2; injection h2 with h2 h3; subst h1 h2
+        obtain ⟨i1, i2⟩ := ih hr
+        exact ⟨by unfold Editor.run; rw [ha]; exact i1, by simp [i2]⟩
+      · cases h
+      · cases h
+    all_goals cases h
+
+/-- … and every history that runs has a log -/
+theorem run_runLog {e e' : Editor D L} {ops : List (Op L)} (h : e.run env ops = .ok e') :
+    ∃ outs acc, e.runLog env ops = .ok (e', outs, acc) := by
+  induction ops generalizing e with
+  | nil => injection h with h; subst h; exact ⟨[], 0, rfl⟩
+  | cons op ops ih =>
+    unfold Editor.run at h
+    split at h
+    · rename_i e1 ha
+      obtain ⟨m, hm⟩ := editPart_ok env ha
+      obtain ⟨outs, acc, hr⟩ := ih h
+      exact ⟨emitted e op e1 :: outs, accepted e op m + acc, by unfold Editor.runLog; rw [ha, hm]; simp only [hr]⟩
+    · cases h
+    · cases h
+
+/-- **every step of every history** has one of the three shapes of `step_accounts` -/
+theorem history_shapes (e : Editor D L) (ops : List (Op L)) : AllSteps env (StepShape env) e ops := by
+  induction ops generalizing e with
+  | nil => trivial
+  | cons op ops ih => exact fun e' m ha hm => ⟨step_shape env ha hm, ih e'⟩
+
+/-- **C02 over histories: no text is lost or invented.**  For every history of public operations whose
+    edited states are tiled by the engine (`TilesAlong`): the characters of all commit strings the
+    application received, plus the symbols still in the pre-edit, equal the symbols there were at the
+    start plus the characters accepted by the editing parts (typed minus deleted) — the commit paths
+    (Enter, `commit()`, overflow after a key, overflow after `select(n)`, direct commit of a key in
+    English / full-width mode) never drop, duplicate or add a character. -/
+theorem history_ledger {e e' : Editor D L} {ops : List (Op L)} {outs : List Text} {acc : Int}
+    (hT : TilesAlong env e ops) (h : e.runLog env ops = .ok (e', outs, acc)) :
+    ((outs.flatten).length : Int) + e'.shared.com.len = e.shared.com.len + acc := by
+  induction ops generalizing e outs acc with
+  | nil =>
+    injection h with h; injection h with h1 h2; injection h2 with h2 h3; subst h1 h2 h3
+    simp
+  | cons op ops ih =>
+    unfold Editor.runLog at h
+    split at h
+    · rename_i e1 m ha hm
+      split at h
+      · rename_i e2 outs2 acc2 hr
+        injection h with h; injection h with h1 h2; injection h2 with h2 h3; subst h1 h2 h3
+        have i1 := ih (hT.2 e1 ha) hr
+        have i2 := step_ledger env ha hm (hT.1 m hm)
+        simp only [List.flatten_cons, List.length_append, Int.natCast_add]
+        omega
+      · cases h
+      · cases h
+    all_goals cases h
+
+/-- the same for an engine that tiles every composition -/
+theorem history_ledger_convTiles (hT : ConvTiles env) {e e' : Editor D L} {ops : List (Op L)}
+    {outs : List Text} {acc : Int} (h : e.runLog env ops = .ok (e', outs, acc)) :
+    ((outs.flatten).length : Int) + e'.shared.com.len = e.shared.com.len + acc :=
+  history_ledger env (hT.tilesAlong env e ops) h
+
+/-! ### the tiling hypothesis is C03's theorem -/
+
+/-- the editor's engine kinds as C03's engines -/
+def engOf : EngineKind → Conv.Engine
+  | .simple => .simple
+  | .chewing => .chewing
+  | .fuzzy => .fuzzy
+
+/-- **C03 discharges `TilesAt`**, with exactly C03's hypotheses: at a state where the environment's
+    engine answers as C03's model of the three real engines (for any tie-breaking oracle `pick` and any
+    reading `view` of the dictionary state as a lookup function), the composition is valid
+    (`CompValid`: F31 excluded), nothing is stored under the empty key (F39), phrases have one
+    character per syllable (`WellFormed`) and — for the simple engine — every syllable has a word
+    (`HasWord`, F30), every alternative tiles the buffer with one character per symbol. -/
+theorem tilesAt_of_C03 {sh : Shared D L} {pick : Nat → List Conv.Path → Nat} {view : D → Dict}
+    (henv : env.convert sh.engine sh.dict sh.com.inner =
+      Conv.convert pick (engOf sh.engine) (view sh.dict) sh.com.inner)
+    (hc : Conv.CompValid sh.com.inner) (hd : Conv.NoEmptyKey (view sh.dict)) (hw : Conv.WellFormed (view sh.dict))
+    (hs : engOf sh.engine = .simple → Conv.HasWord (view sh.dict) .standard sh.com.inner) :
+    TilesAt env sh := by
+  intro paths hp p hm
+  rw [henv] at hp
+  exact tiles_of_chain (C03.alt_chain hc hd hp p hm) (C03.one_char_per_symbol hc hd hw hs hp p hm)
+
 /-! ## 4. non-vacuity: a concrete environment with a real (two-entry) dictionary and a trivial engine -/
 
 abbrev ToyDict := List Entry
@@ -687,6 +775,76 @@ example : ∃ sh sh', Shared.tryAutoCommit richEnv sh = .ok sh' ∧ sh.options.a
 /-- … and an absorbed key commits nothing (`no_phantom_commit` is not vacuous) -/
 example : ∃ e', (rich0 39).processKey richEnv kH = .ok (e', .absorb) ∧ e'.shared.commitBuf = [] :=
   ⟨_, rfl, by decide⟩
+
+/-! ### non-vacuity of section 5 -/
+
+/-- a history through three commit routes — overflow after a key (threshold 1), direct commit is not
+    possible in this toy layout, Enter — with its log and ledger: `h␣ j␣` pushes out "A", Enter commits "B";
+    2 characters accepted, 2 emitted, none left -/
+example : ∃ e', (rich0 1).runLog richEnv [.key kH, .key kSpace, .key kJ, .key kSpace, .key kEnter] =
+      .ok (e', [[], [], [], [65], [66]], 0 + (1 + (0 + (1 + (0 + 0))))) ∧ e'.shared.com.symbols = [] :=
+  ⟨_, rfl, by decide⟩
+
+/-- … `commit()` and overflow after `select(n)` are routes too: lower the threshold while a candidate list
+    is open, choose: the overflow runs after the choice -/
+example : ∃ e' outs acc, (rich0 39).runLog richEnv
+      [.key kH, .key kSpace, .key kJ, .key kSpace, .startSelecting,
+       .setOptions { autoCommitThreshold := 1 }, .select 0, .commit] = .ok (e', outs, acc) ∧
+      outs = [[], [], [], [], [], [], [65], [66]] ∧ acc = 2 ∧ e'.shared.com.symbols = [] := by
+  refine ⟨_, _, _, rfl, ?_, ?_, ?_⟩ <;> decide
+
+/-- the hypothesis of `history_ledger` is satisfiable for every history of the toy environment -/
+example (e : Editor ToyDict Nat) (ops : List (Op Nat)) : TilesAlong richEnv e ops :=
+  richEnv_tiles.tilesAlong richEnv e ops
+
+/-- an environment whose engine IS C03's model of the real engines (tie-breaking oracle `pickFirstMin`),
+    over C03's dictionary type; keys `h` / `j` type `ㄘㄜˋ` / `ㄕˋ` -/
+def convEnv : Env Dict Nat where
+  lookupAll d key s := d.lookup key s
+  userLookupAll _ _ _ := []
+  addPhrase d _ _ := some d
+  updatePhrase d _ _ _ _ := d
+  removePhrase d _ _ := d
+  reopenFlush d := d
+  convert k d c := Conv.convert Conv.pickFirstMin (engOf k) d c
+  estimate _ f _ := .ok f
+  keyPress l ev :=
+    if ev.code = 32 then (.absorb, 10268) else if ev.code = 33 then (.absorb, 1100)
+    else if ev.code = KC.space ∧ l ≠ 0 then (.commit, l) else (.keyError, l)
+  fuzzyKeyPress l _ := (.keyError, l)
+  removeLast _ := 0
+  clearSyl _ := 0
+  sylIsEmpty l := l == 0
+  read l := l
+  altSyllables _ _ := []
+
+/-- C03's example composition (a selection, a break, a glue mark, a character) in an editor state: all of
+    C03's hypotheses hold, hence `TilesAt` -/
+example : TilesAt convEnv
+    { syl := 0, dict := C03.dEx, engine := .chewing, com := { cursor := 6, inner := C03.cEx } } :=
+  tilesAt_of_C03 convEnv (pick := Conv.pickFirstMin) (view := id) rfl (by decide) C03.dEx_ok.1 C03.dEx_ok.2
+    (fun h => by cases h)
+
+/-- the editor state after typing `ㄘㄜˋ ㄕˋ` over C03's example dictionary -/
+def shTS : Shared Dict Nat :=
+  { syl := 0, dict := C03.dEx,
+    com := { cursor := 2, inner := { symbols := [.syl 10268, .syl 1100], gaps := [.begin, .normal] } } }
+
+/-- … it is what the keys `h␣ j␣` produce in the editor over the real engine model -/
+example : (({ shared := { syl := 0, dict := C03.dEx } } : Editor Dict Nat).run convEnv
+      [.key kH, .key kSpace, .key kJ, .key kSpace]).map (fun e => (e.shared.com, e.shared.nth, e.state)) =
+    .ok (shTS.com, 0, .entering) := by decide +kernel
+
+/-- … it satisfies C03's hypotheses, hence `TilesAt` by `tilesAt_of_C03` -/
+example : TilesAt convEnv shTS :=
+  tilesAt_of_C03 convEnv (pick := Conv.pickFirstMin) (view := id) rfl (by decide) C03.dEx_ok.1 C03.dEx_ok.2
+    (fun h => by cases h)
+
+/-- … the pre-edit shows the phrase 測試, and `commit()` emits exactly 測試 and empties the pre-edit -/
+example : Shared.display convEnv shTS = .ok [28204, 35430] ∧
+    (({ shared := shTS } : Editor Dict Nat).apply convEnv .commit).map
+      (fun e' => (emitted { shared := shTS } .commit e', e'.shared.com.symbols)) = .ok ([28204, 35430], []) := by
+  constructor <;> decide +kernel
 
 /-- without a hypothesis on the engine `commit_has_text` fails: `C06.toyEnv` converts everything to
     nothing, Enter on a one-character buffer reports *commit* with an empty commit string -/
